@@ -530,6 +530,11 @@ impl Transaction {
         let start_of_outputs = start_of_inputs + inputs_len as usize * SLIP_SIZE;
         let start_of_message = start_of_outputs + outputs_len as usize * SLIP_SIZE;
         let start_of_path = start_of_message + message_len;
+        let end_of_path = start_of_path + path_len * HOP_SIZE;
+        if bytes.len() < end_of_path {
+            // the buffer is shorter than the lengths declared in its header
+            return Err(Error::from(ErrorKind::InvalidData));
+        }
         let mut inputs: Vec<Slip> = vec![];
         for n in 0..inputs_len {
             let start_of_data: usize = start_of_inputs + n as usize * SLIP_SIZE;
